@@ -3,6 +3,8 @@ import XMT.Decode
 import XMT.DecodeDns
 import XMT.DecodeStream
 import XMT.DecodeSafe
+import XMT.FragHostile
+import XMT.Drv.C01
 namespace XMT.Drv.C04
 open XMT XMT.Decode XMT.Drv
 
@@ -84,6 +86,14 @@ def showOut (name : String) (len : Nat) (o : Out Unit) : String :=
 def showCodecErr : Codec.Err → String
   | .eof => "eof" | .unexpectedEOF => "ueof" | .invalidType => "badtype" | .tooLarge => "toolarge"
 
+def showFragOut : Frag.Out → String
+  | .deliver p => s!"deliver:{p.id.toNat}:{p.job}:{p.flags}:{p.payload.length}"
+  | .stored => "stored"
+  | .dropReply => "drop"
+  | .errCount => "err:count"
+  | .errMismatch => "err:mismatch"
+  | .control => "control"
+
 def handle (args : List String) : String :=
   match args with
   | ["bound", name] =>
@@ -127,6 +137,14 @@ def handle (args : List String) : String :=
       | .panic _ => "panic"
       | .hang => "hang"
     | none => "bad-op"
+  | "fragseq" :: toks =>
+    match toks.mapM XMT.Drv.C01.parsePkt with
+    | none => "bad-op"
+    | some ps =>
+      match FragHostile.recvAllP [] ps with
+      | .panic => "panic"
+      | .ok (fs, outs) =>
+        " ".intercalate (outs.map showFragOut) ++ s!" groups={fs.length} held={FragHostile.held fs}"
   | _ => "bad-op"
 
 end XMT.Drv.C04
